@@ -6,6 +6,7 @@
 #include <memory>
 
 #include "common/families.hpp"
+#include "common/fence_alloc.hpp"
 #include "common/refjson.hpp"
 #include "common/runner.hpp"
 #include "common/sonic_cmp.hpp"
@@ -110,6 +111,7 @@ static void c01_after_history(const std::string& X, const std::string& Y, const 
 }
 
 // ---------------------------------------------------------------- C03
+static bool g_fence_this_family = false;  // set per family by main(): third realisation with the fence allocator
 static void check_C03(const std::string& text, vr::Ctx& ctx) {
   ref::Result r = ref::parse(text);
   ctx.eval();
@@ -136,6 +138,28 @@ static void check_C03(const std::string& text, vr::Ctx& ctx) {
   }
   d = sc::compare(d2, r.v);
   if (!d.empty()) ctx.violation("value_mismatch", "value_mismatch_simplealloc", text, "%s", d.c_str());
+#if !defined(__SANITIZE_ADDRESS__)
+  // third realisation (production builds, selected families): every block the parser obtains - the padded copy of
+  // the input, the node stack, the final node arrays - ends directly in front of an inaccessible page
+  if (g_fence_this_family) {
+    using FDoc = GenericDocument<DNode<fa::FenceAllocator>>;
+    {
+      FDoc d3;
+      d3.Parse(b.p, b.n);
+      if (d3.HasParseError()) {
+        ctx.violation("rejects_valid", "rejects_valid_fencealloc", text, "valid text rejected (fence allocator) code %d", (int)d3.GetParseError());
+        return;
+      }
+      d = sc::compare(d3, r.v);
+      if (!d.empty()) ctx.violation("value_mismatch", "value_mismatch_fencealloc", text, "%s", d.c_str());
+      if (d3.Dump() != doc.Dump()) ctx.violation("value_mismatch", "dump_mismatch_fencealloc", text, "Dump() differs between the pool and the fence allocator document");
+    }
+    if (fa::table().errors || !fa::table().live.empty()) {
+      ctx.violation("fence_ledger", "fence_ledger", text, "fence allocator: %d foreign frees, %zu blocks still allocated after the document died", fa::table().errors, fa::table().live.size());
+      fa::table().errors = 0;
+    }
+  }
+#endif
 }
 
 // the value read back after a history of earlier calls on the same document (C03: "a successful Parse yields
@@ -246,6 +270,11 @@ static void check_C02(const std::string& text, vr::Ctx& ctx) {
 struct HistSet {
   std::vector<std::string> S;
 };
+template <class A>
+static auto clear_pool(A& a) -> decltype(a.Clear(), void()) {
+  a.Clear();
+}
+static void clear_pool(...) {}
 template <class Doc>
 static void c02_hist(const HistSet& hs, const std::vector<unsigned>& seq, unsigned mode, const char* tag, vr::Ctx& ctx) {
   std::string desc;
@@ -258,10 +287,33 @@ static void c02_hist(const HistSet& hs, const std::vector<unsigned>& seq, unsign
   {
     Doc doc;
     for (size_t k = 0; k < last; k++) doc.Parse(bufs[k]->p, bufs[k]->n);
+    // modes 2 / 3 (pool allocator): something legal happens to ANOTHER object between the two calls
+    typename Doc::NodeType keep;
+    std::string kept;
+    bool have_kept = false;
+    if (mode == 2) {
+      // the document's allocator is cleared (its chunks go back to the base allocator): the next Parse must not
+      // touch anything the document obtained before
+      static_cast<typename Doc::NodeType&>(doc).SetNull();
+      clear_pool(doc.GetAllocator());
+    } else if (mode == 3) {
+      // a string value is moved out of the document and kept by the caller (it lives as long as the allocator)
+      typename Doc::NodeType* src = nullptr;
+      if (doc.IsArray() && doc.Size() > 0) src = &doc[doc.Size() - 1];
+      if (doc.IsObject() && doc.Size() > 0) src = &(doc.MemberBegin() + (doc.Size() - 1))->value;
+      if (src && src->IsString()) {
+        kept.assign(src->GetStringView().data(), src->GetStringView().size());
+        keep = std::move(*src);
+        have_kept = true;
+      }
+    }
     Doc fresh;
-    if (mode == 0) {
+    if (mode == 0 || mode == 2 || mode == 3) {
       doc.Parse(bufs[last]->p, bufs[last]->n);
       fresh.Parse(bufs[last]->p, bufs[last]->n);
+      if (have_kept && (!keep.IsString() || std::string(keep.GetStringView().data(), keep.GetStringView().size()) != kept))
+        ctx.violation("kept_node_changed", std::string("kept_string_changed_by_reparse_") + tag, desc, "a string moved out of the document before the second Parse read '%s' before and '%s' after it", kept.c_str(),
+                      keep.IsString() ? std::string(keep.GetStringView().data(), keep.GetStringView().size()).c_str() : "<not a string>");
     } else if (mode == 1) {
       doc.ParseOnDemand(bufs[last]->p, bufs[last]->n, path);
       fresh.ParseOnDemand(bufs[last]->p, bufs[last]->n, path);
@@ -323,6 +375,7 @@ int main(int argc, char** argv) {
     tf.push_back(fam::make_LN());
     tf.push_back(fam::make_LU());
     tf.push_back(fam::make_LH(quick ? 18 : 20));
+    tf.push_back(fam::make_LP());
   } else if (prop == "C03") {
     tf.push_back(fam::make_LA(quick ? 7 : 8));
     tf.push_back(fam::make_LA1(quick ? 5 : 6));
@@ -336,6 +389,7 @@ int main(int argc, char** argv) {
     tf.push_back(fam::make_LN());
     tf.push_back(fam::make_LU());
     tf.push_back(fam::make_LH(quick ? 18 : 20));
+    tf.push_back(fam::make_LP());
   } else if (prop == "C02") {
     tf.push_back(fam::make_L0(quick ? 4 : 5));
     tf.push_back(fam::make_LA(quick ? 5 : 6));
@@ -347,6 +401,7 @@ int main(int argc, char** argv) {
     tf.push_back(fam::make_LX(lxbase, 3));
     tf.push_back(fam::make_LN());
     tf.push_back(fam::make_LH(quick ? 17 : 19));  // under ASan x 3 allocators x fill bytes
+    tf.push_back(fam::make_LP());
   } else {
     fprintf(stderr, "jsonenum: --prop C01|C02|C03 required\n");
     return 2;
@@ -391,10 +446,10 @@ int main(int argc, char** argv) {
     fhv.chunk = 64;
     fhv.rule = "all ordered pairs (X,Y) over the " + std::to_string(hs.S.size()) + "-text set (valid, invalid, truncated, deep) with Y valid, in 3 histories on ONE document (Parse X ; Parse Y / Parse X ; ParseOnDemand(Y,/a) ; Parse Y / Parse X ; ParseSchema(Y) ; Parse Y), pool and freeing allocator: the document read back through the accessors must be exactly Y's value";
     fpairs.name = "H2_reuse_pairs";
-    fpairs.count = (uint64_t)hs.S.size() * hs.S.size() * 2;
+    fpairs.count = (uint64_t)hs.S.size() * hs.S.size() * 4;
     fpairs.group = "H2";
     fpairs.rule = "reuse histories: all ordered pairs (X,Y) over a " + std::to_string(hs.S.size()) +
-                  "-text set (valid, invalid, truncated, deep) parsed into ONE document in 2 modes (Parse;Parse / Parse;ParseOnDemand(/a)), pool + freeing + tracking allocator; result compared with a fresh document";
+                  "-text set (valid, invalid, truncated, deep) parsed into ONE document in 4 modes (Parse;Parse / Parse;ParseOnDemand(/a) / Parse;allocator.Clear();Parse / Parse;a string value moved out and kept by the caller;Parse - the last two for the pool allocator), pool + freeing + tracking allocator; result compared with a fresh document, the kept string must be unchanged";
     fpairs.chunk = 64;
     if (!quick) {
       ftriples.name = "H3_reuse_triples";
@@ -441,8 +496,8 @@ int main(int argc, char** argv) {
       std::vector<unsigned> seq;
       unsigned mode = 0;
       if (f.name == "H2_reuse_pairs") {
-        mode = (unsigned)(idx % 2);
-        uint64_t r = idx / 2;
+        mode = (unsigned)(idx % 4);
+        uint64_t r = idx / 4;
         seq = {(unsigned)(r / hs.S.size()), (unsigned)(r % hs.S.size())};
       } else {
         size_t m = std::min<size_t>(hs.S.size(), 40);
@@ -456,6 +511,7 @@ int main(int argc, char** argv) {
         ctx.sample("mode " + std::to_string(mode) + ": " + d);
       }
       c02_hist<PoolDoc>(hs, seq, mode, "pool", ctx);
+      if (mode >= 2) return;  // Clear() / kept nodes are pool-allocator scenarios
       c02_hist<SimpleDoc>(hs, seq, mode, "simple", ctx);
       ta::Ledger& L = ta::ledger();
       L.reset();
@@ -467,6 +523,7 @@ int main(int argc, char** argv) {
       return;
     }
     const fam::TextFamily* t = byname[f.name];
+    g_fence_this_family = f.name.compare(0, 2, "LA") != 0 && f.name.compare(0, 2, "L0") != 0;  // all but the two mass families
     std::string text;
     if (!t->gen(idx, text)) {
       ctx.skip();
